@@ -11338,7 +11338,8 @@ func (p *parser) visitAndAppendStmt(stmts []js_ast.Stmt, stmt js_ast.Stmt) []js_
 				// Mark if this function is an empty function
 				hasSideEffectFreeArguments := true
 				for _, arg := range s.Fn.Args {
-					if _, ok := arg.Binding.Data.(*js_ast.BIdentifier); !ok {
+					// Note: A default value is evaluated when the function is called
+					if _, ok := arg.Binding.Data.(*js_ast.BIdentifier); !ok || arg.DefaultOrNil.Data != nil {
 						hasSideEffectFreeArguments = false
 						break
 					}
